@@ -353,9 +353,9 @@ def run(M, rec, tier, seed, k, n):
         else:
             exhaustive(M, rec, rng, 3, k, n)
             shared_objects(M, rec, rng, 600)
-            only_duplicates(M, rec, rng, 1500)
-            random_graphs(M, rec, rng, 4000)
-            histories(M, rec, rng, 2500)
+            only_duplicates(M, rec, rng, 4000)
+            random_graphs(M, rec, rng, 15000)
+            histories(M, rec, rng, 8000)
             rec.extra["exhaustive_up_to_nodes"] = 3
     finally:
         mon.uninstall()
